@@ -1051,7 +1051,8 @@ const RULE: &str = "#rule stream a: one byte string per case (valid encodings of
 pub fn gen(a: &Args) -> String {
     watchdog_start(&a.out);
     install_panic_hook();
-    let mut r = Rng::new(a.seed);
+    // `fork` decorrelates adjacent seeds (Rng::new(s) and Rng::new(s + 1) are the same stream shifted by one draw)
+    let mut r = Rng::new(a.seed).fork();
     let mut out = Out::default();
     out.buf.push_str(RULE);
     out.buf.push('\n');
